@@ -316,8 +316,22 @@ func findOrCreateMatchFileIfOverlaps(order *list.List, e1, e2 *HostsMapEntry) {
 		if el1 == nil {
 			el1 = findOrCreateMatchFile(order, e1)
 		}
-		e2._upper = el1
+		// e2 must be placed after all the entries it overlaps with,
+		// so _upper can only move forward in the list
+		if e2._upper == nil || isAfter(e2._upper, el1) {
+			e2._upper = el1
+		}
 	}
+}
+
+// isAfter checks if elem is cur or comes after cur in their list
+func isAfter(cur, elem *list.Element) bool {
+	for e := cur; e != nil; e = e.Next() {
+		if e == elem {
+			return true
+		}
+	}
+	return false
 }
 
 func findOrCreateMatchFile(order *list.List, e1 *HostsMapEntry) *list.Element {
